@@ -13,7 +13,9 @@ from . import cachecommon as CC
 from . import common as C
 
 TRUSTED = CC.TRUSTED_COMMON + [
-    "C04: browsers are _ServiceBrowserBase objects driven through RecordManager (no event loop, no QueryScheduler.start); "
+    "C04: browsers are _ServiceBrowserBase objects (even ids) or a subclass running the real ServiceBrowser.async_update_records_complete "
+    "override with an inline queue instead of the delivery thread (odd ids), created by the real _async_start (asyncio.ensure_future replaced: "
+    "no event loop, no QueryScheduler.start) and cancelled by the real _async_cancel, each with a listener and a second plain handler; "
     "reschedule_ptr_first_refresh / cancel_ptr_refresh run but their effect (C10) is not observed here",
     "C04: 'quiescent' = between two ops of the history (asyncio runs each datagram / purge / API call to completion)",
 ]
@@ -75,6 +77,9 @@ def oracle(probes, ops, obs, res):
             active.pop(op[1], None)
             for key in [x for x in live if x[0] == op[1]]:
                 del live[key]
+        if [list(x[:4]) for x in o["cb"]] != [list(x) for x in o.get("cb2", [])] and o.get("cb2") is not None:
+            found.append((idx, "C04:second-handler", "the second handler of the browsers was called with %r, the listener with %r"
+                          % (o["cb2"][:4], [x[:4] for x in o["cb"]][:4])))
         counts = {"A": 0, "R": 0, "U": 0}
         for bid, ch, type_, name, seen, snap in o["cb"]:
             counts[ch] += 1
@@ -267,6 +272,58 @@ def exh_histories(actions, gaps, depth, t1=None, t2=None):
                 yield ops
 
 
+# ------------------------------------------------------------------------------------------
+# D23 (outside C04's quantifier: "browsers created while no expired-but-unpurged pointer record of their types is cached")
+
+D23_SIG = "C04:created-over-expired-unpurged:never-added-after-refresh"
+
+
+def d23_histories():
+    """a pointer record expires; a browser is created before the 10 s purge removes it; the instance announces itself again"""
+    for tpl, types in ((VOCAB[0], [TX]), (VOCAB[14], [TZ]), (VOCAB[3], [TY, TX])):
+        for ttl in (120, 4500):
+            eff = max(ttl, 1125)
+            t0 = CC.T0 + 800
+            exp = t0 + 1000 * eff
+            for off in (0, 1, 4200, 9999):
+                for ttl2 in (120, 4500):
+                    create = exp + off
+                    ops = [["D", t0, [CC.inst(tpl, ttl, 0)], []],
+                           ["BA", 1, create, list(types)],
+                           ["D", create + 100, [CC.inst(tpl, ttl2, 0)], []],
+                           ["X", (create // 10000 + 1) * 10000],
+                           ["D", (create // 10000 + 1) * 10000 + 500, [CC.inst(tpl, ttl2, 0)], []]]
+                    yield ops
+
+
+def oracle_d23(probes, ops, obs, res):
+    """the C04 predicates on a history that creates a browser over an expired-but-unpurged pointer record: reported under the D23
+    signature only where the record has been announced again since (it is alive in the reference) and the browser still has not Added it"""
+    found = oracle(probes, ops, obs, res)
+    ref = CC.Ref()
+    alive_after = {}
+    seen_ba = False
+    for idx, op in enumerate(ops):
+        if op[0] == "D":
+            ref.datagram(op[1], op[2])
+            alive_after[idx] = seen_ba and any(i[0] == "p" and e[0] + 1000 * e[1] > op[1] for i, e in ref.d.items())
+        elif op[0] == "X":
+            ref.purge(op[1])
+            alive_after[idx] = seen_ba and any(i[0] == "p" and e[0] + 1000 * e[1] > op[1] for i, e in ref.d.items())
+        elif op[0] == "BA":
+            seen_ba = True
+    out = []
+    for idx, sig, what in found:
+        if sig == "C04:cached-not-added" and alive_after.get(idx):
+            out.append((idx, D23_SIG, "a browser created while an expired-but-unpurged pointer record was cached: the instance announced itself "
+                        "again (the cached entry was refreshed in place and handed to the browser as (new, old=the stale entry)), yet " + what))
+    return out
+
+
+def d23_valid(ops):
+    return (not well_formed(ops)) and any(o[0] == "BA" for o in ops)
+
+
 def run(ctx):
     res = C.Result("C04")
     t0 = time.time()
@@ -298,6 +355,12 @@ def run(ctx):
             res.notes.append("bounded enumeration cut short by the time budget after %d histories" % n_exh)
             break
     res.exhaustive = complete
+
+    # D23: browser creation between a pointer's expiry and the purge, then a fresh announcement (outside the quantifier; known finding)
+    run_d23 = CC.Runner(res, "C04", ctx, oracle_d23, valid=d23_valid)
+    for ops in d23_histories():
+        run_d23.add("d23-created-over-expired-unpurged", probes, ops)
+    run_d23.finish()
 
     # outside the quantifier: model correspondence only (exercises the Added > Removed > Updated precedence, which WFHist makes unreachable)
     probes_w = CC.vocab_probes(VOCAB_WILD, [TX, TY, TZ])
